@@ -72,30 +72,36 @@ pub struct C16Case {
     pub ext_a: u8,
     pub ext_b: Option<u8>,
     pub ops: Vec<WOp>,
+    /// Group B is declared on the SAME path as group A (two resources, one directory).
+    #[serde(default)]
+    pub same_path: bool,
 }
 
 /// Filters used here always contain something (with no filter the barrier files themselves
 /// would be relevant). Groups whose declaration matches temporary-file names are included.
-pub const EXTS: [&[&str]; 6] = [&["rs"], &[".txt", "md"], &["rs~"], &["swp", "rs"], &["tar.gz"], &["swx"]];
+pub const EXTS: [&[&str]; 7] = [&["rs"], &[".txt", "md"], &["rs~"], &["swp", "rs"], &["tar.gz"], &["swx"], &[]];
 
 pub fn c16_case() -> impl Strategy<Value = C16Case> {
     (
-        0u8..6,
-        prop::option::of(0u8..6),
+        0u8..7,
+        prop::option::of(0u8..7),
         prop::collection::vec((0u8..9, 0u8..12, 0u8..12, 0u8..4), 1..=12),
+        any::<bool>(),
     )
-        .prop_map(|(ext_a, ext_b, ops)| C16Case {
+        .prop_map(|(ext_a, ext_b, ops, same_path)| C16Case {
             ext_a,
             ext_b: ext_b.filter(|b| EXTS[*b as usize] != EXTS[ext_a as usize]),
             ops: ops
                 .into_iter()
                 .map(|(kind, name, name2, dir)| WOp { kind, name, name2, dir })
                 .collect(),
+            same_path,
         })
 }
 
-fn exts_of(k: u8) -> BTreeSet<String> {
-    normalise_extensions(&Some(EXTS[k as usize % EXTS.len()].iter().map(|s| s.to_string()).collect())).unwrap()
+/// None = no filter (every file below the path belongs to the resource).
+fn exts_of(k: u8) -> Option<BTreeSet<String>> {
+    normalise_extensions(&Some(EXTS[k as usize % EXTS.len()].iter().map(|s| s.to_string()).collect()))
 }
 
 fn make_name(class: u8, ext: &str) -> (Vec<u8>, &'static str) {
@@ -121,15 +127,15 @@ fn is_tmp_name(name: &[u8]) -> bool {
     name.ends_with(b"~") || (name.starts_with(b".") && (name.ends_with(b".swp") || name.ends_with(b".swx")))
 }
 
-fn relevant(path_comps: &[&[u8]], name: &[u8], exts: &BTreeSet<String>) -> bool {
+fn relevant(path_comps: &[&[u8]], name: &[u8], exts: &Option<BTreeSet<String>>) -> bool {
     !path_comps.iter().any(|c| *c == b".zinoma")
         && !is_tmp_name(name)
-        && exts.iter().any(|e| name.ends_with(e.as_bytes()))
+        && exts.as_ref().is_none_or(|x| x.iter().any(|e| name.ends_with(e.as_bytes())))
 }
 
 struct Group {
     dirs: Vec<PathBuf>,
-    exts: BTreeSet<String>,
+    exts: Option<BTreeSet<String>>,
 }
 
 pub fn eval_c16(case: &C16Case) -> CaseResult {
@@ -142,7 +148,7 @@ pub fn eval_c16(case: &C16Case) -> CaseResult {
     let tid_s = tid.to_string();
     let sb = Sandbox::new("c16");
     let base = std::fs::canonicalize(&sb.root).unwrap();
-    for d in ["src", "src/nested", "lib", "elsewhere", "src/.zinoma"] {
+    for d in ["src", "src/nested", "lib", "elsewhere", "src/.zinoma", "lib/.zinoma"] {
         std::fs::create_dir_all(base.join(d)).unwrap();
     }
     std::fs::write(base.join("single_watched.txt"), b"x").unwrap();
@@ -151,17 +157,17 @@ pub fn eval_c16(case: &C16Case) -> CaseResult {
         exts: exts_of(case.ext_a),
     };
     let gb = case.ext_b.map(|b| Group {
-        dirs: vec![base.join("lib")],
+        dirs: vec![base.join(if case.same_path { "src" } else { "lib" })],
         exts: exts_of(b),
     });
     let mut files = vec![FilesResource {
         paths: ga.dirs.iter().map(|p| p.clone().into()).collect(),
-        extensions: Some(ga.exts.clone()),
+        extensions: ga.exts.clone(),
     }];
     if let Some(g) = &gb {
         files.push(FilesResource {
             paths: g.dirs.iter().map(|p| p.clone().into()).collect(),
-            extensions: Some(g.exts.clone()),
+            extensions: g.exts.clone(),
         });
     }
     let resources = Resources { files, cmds: vec![] };
@@ -177,19 +183,49 @@ pub fn eval_c16(case: &C16Case) -> CaseResult {
     };
     let groups: Vec<&Group> = std::iter::once(&ga).chain(gb.iter()).collect();
     let mut barrier_no = 0u64;
+    // Watcher threads known to cover each barrier directory. How many watchers the code under
+    // test creates is not assumed: the first barrier in a directory waits for one report and
+    // then keeps listening for 100 ms for further threads; later barriers wait for all of them
+    // (each watcher's event stream is ordered independently of the others).
+    let known: std::cell::RefCell<std::collections::BTreeMap<PathBuf, BTreeSet<String>>> =
+        std::cell::RefCell::new(std::collections::BTreeMap::new());
     // returns Err(reason) when the watcher stopped reporting
     let mut barrier = |barrier_no: &mut u64| -> Result<(), String> {
         for g in &groups {
             *barrier_no += 1;
-            let p = g.dirs[0].join(format!("zvbarrier-{}.zvb", *barrier_no));
+            let bdir = g.dirs[0].join(".zinoma");
+            let p = bdir.join(format!("zvbarrier-{}.zvb", *barrier_no));
             std::fs::write(&p, b"b").map_err(|e| e.to_string())?;
             let t0 = Instant::now();
+            let mut first_seen: Option<Instant> = None;
             loop {
                 {
                     let mut tap = watch_tap().lock().unwrap_or_else(|e| e.into_inner());
-                    let seen = tap.iter().any(|(t, q)| *t == tid_s && q == &p);
-                    if seen {
-                        tap.retain(|(t, _)| *t != tid_s);
+                    let threads: BTreeSet<String> = tap
+                        .iter()
+                        .filter(|(t, q, _)| *t == tid_s && q == &p)
+                        .map(|(_, _, th)| format!("{:?}", th))
+                        .collect();
+                    let mut known = known.borrow_mut();
+                    let done = match known.get_mut(&bdir) {
+                        Some(k) => {
+                            k.extend(threads.iter().cloned());
+                            k.iter().all(|th| threads.contains(th))
+                        }
+                        None => {
+                            if !threads.is_empty() && first_seen.is_none() {
+                                first_seen = Some(Instant::now());
+                            }
+                            if first_seen.is_some_and(|f| f.elapsed() > Duration::from_millis(100)) {
+                                known.insert(bdir.clone(), threads.clone());
+                                true
+                            } else {
+                                false
+                            }
+                        }
+                    };
+                    if done {
+                        tap.retain(|(t, _, _)| *t != tid_s);
                         break;
                     }
                 }
@@ -235,7 +271,13 @@ pub fn eval_c16(case: &C16Case) -> CaseResult {
             None => groups[0],
         };
         let (drel, group) = if gidx == 1 && gb.is_none() { ("src", groups[0]) } else { (drel, group) };
-        let ext = group.exts.iter().next().unwrap().clone();
+        // with both resources on one path, operations aimed at the second one happen there too
+        let drel = if case.same_path && drel == "lib" { "src" } else { drel };
+        let ext = group
+            .exts
+            .as_ref()
+            .and_then(|x| x.iter().next().cloned())
+            .unwrap_or_else(|| ".dat".to_string());
         let (name, label) = make_name(op.name, &ext);
         let (name2, label2) = make_name(op.name2, &ext);
         let dir = base.join(drel);
@@ -246,8 +288,10 @@ pub fn eval_c16(case: &C16Case) -> CaseResult {
         if std::str::from_utf8(&name).is_err() || name.contains(&b'\n') || name.len() > 100 {
             odd_name = true;
         }
-        let rel1 = relevant(&comps, &name, &group.exts);
-        let rel2 = relevant(&comps, &name2, &group.exts);
+        // every group that watches this directory counts (two resources may share a path)
+        let watching: Vec<&&Group> = groups.iter().filter(|g| dir.starts_with(&g.dirs[0])).collect();
+        let rel1 = watching.iter().any(|g| relevant(&comps, &name, &g.exts));
+        let rel2 = watching.iter().any(|g| relevant(&comps, &name2, &g.exts));
         // a name that is nothing but a temporary-file suffix (".swp") is not clearly covered by
         // the patterns of the statement: no expectation
         let ambiguous = is_tmp_name(&name) && name.iter().filter(|&&b| b == b'.').count() < 2 && !name.ends_with(b"~");
@@ -348,7 +392,20 @@ pub fn eval_c16(case: &C16Case) -> CaseResult {
                     let t1 = Instant::now();
                     while t1.elapsed() < Duration::from_millis(20) {
                         let tap = watch_tap().lock().unwrap_or_else(|e| e.into_inner());
-                        if tap.iter().any(|(t, x)| *t == tid_s && x == &q) {
+                        let need = known
+                            .borrow()
+                            .iter()
+                            .filter(|(d, _)| q.starts_with(d.parent().unwrap_or(d)))
+                            .map(|(_, k)| k.len())
+                            .max()
+                            .unwrap_or(1)
+                            .max(1);
+                        let threads: BTreeSet<String> = tap
+                            .iter()
+                            .filter(|(t, x, _)| *t == tid_s && x == &q)
+                            .map(|(_, _, th)| format!("{:?}", th))
+                            .collect();
+                        if threads.len() >= need {
                             registered = true;
                             break;
                         }
@@ -402,6 +459,13 @@ pub fn eval_c16(case: &C16Case) -> CaseResult {
                 if saw_irrelevant {
                     saw_irrelevant_then_relevant = true;
                 }
+                // confirmation: a watcher not yet known to the barrier gets 300 ms more
+                let got = if got == 0 {
+                    std::thread::sleep(Duration::from_millis(300));
+                    drain(&rx)
+                } else {
+                    got
+                };
                 if got == 0 {
                     violation = Some(("missed".into(), format!("{}: a change to a declared input produced no invalidation", desc)));
                     break 'ops;
@@ -419,7 +483,11 @@ pub fn eval_c16(case: &C16Case) -> CaseResult {
     }
     // survival probe
     if dead.is_none() && violation.is_none() {
-        let ext = ga.exts.iter().next().unwrap().clone();
+        let ext = ga
+            .exts
+            .as_ref()
+            .and_then(|x| x.iter().next().cloned())
+            .unwrap_or_else(|| ".dat".to_string());
         let p = base.join("src").join(format!("probe{}", ext));
         let (pname, _) = (format!("probe{}", ext), ());
         if relevant(&[b"src"], pname.as_bytes(), &ga.exts) {
@@ -447,7 +515,7 @@ pub fn eval_c16(case: &C16Case) -> CaseResult {
     let _ = std::panic::catch_unwind(std::panic::AssertUnwindSafe(move || drop(watcher)));
     {
         let mut tap = watch_tap().lock().unwrap_or_else(|e| e.into_inner());
-        tap.retain(|(t, _)| *t != tid_s);
+        tap.retain(|(t, _, _)| *t != tid_s);
     }
     res.nontrivial = saw_irrelevant_then_relevant || odd_name;
     res.fingerprint = format!("{:?}|{}|{:?}", classes, case.ext_a, case.ext_b);
